@@ -285,6 +285,140 @@ def rule_cmp_every_step(ctx: Ctx) -> None:
                  "on one target, with a Hadamard between them)", func="direct", construct="direct: a step of the walk skips the comparison")
 
 
+def _decision_check(ctx, m, label, tb, run, required, node, reject_is, func):
+    """table properties of a comparator step: all pair fields equal -> accepted; a required field unequal -> rejected; making a field
+    unequal never turns a rejection into an acceptance"""
+    pair = {k: a.pair for k, a in tb.atoms.items() if a.pair is not None}
+    if not pair:
+        raise AnalysisError(f"{label}: no field comparison between the two operands found")
+
+    def rejected(a):
+        return reject_is(run(a))
+    problems = []
+    req_keys = {}
+    for want in required:
+        ks = [k for k, pf in pair.items() if (pf == want or pf.endswith(want) or want in pf) and not (want == "@.q_registers" and "q_registers_type" in pf)]
+        if not ks:
+            problems.append(f"the `{want.replace('@', '<op>')}` of the two operations is never compared")
+        else:
+            req_keys[want] = ks[0]
+    rows = list(tb.rows())
+    for a in rows:
+        if all(a[k] for k in pair) and rejected(a):
+            problems.append("two operations that agree in every compared field are still told apart")
+            break
+    for want, k in req_keys.items():
+        if any((not a[k]) and not rejected(a) for a in rows):
+            problems.append(f"a difference in `{want.replace('@', '<op>')}` is accepted (for some combination of the other fields)")
+    mono_bad = False
+    for a in rows:
+        if rejected(a):
+            for k in pair:
+                if a[k]:
+                    b = dict(a)
+                    b[k] = False
+                    if not rejected(b):
+                        mono_bad = True
+    if mono_bad:
+        problems.append("making one more field differ turns a mismatch into a match (a comparison has the wrong polarity)")
+    # a compared field that differs is a mismatch whenever the guards around its comparison hold
+    others = [k for k in tb.atoms if k not in pair]
+    for k, pf in pair.items():
+        for a in rows:
+            if not a[k] and all(a[o] for o in others) and not rejected(a):
+                problems.append(f"a difference in `{pf.replace('@', '<op>')}` alone is accepted")
+                break
+    if problems:
+        ctx.fail("cmp.decision", m, node, f"{label}: " + "; ".join(dict.fromkeys(problems)), func=func, construct=f"{label}: decision table")
+    else:
+        ctx.ok("cmp.decision", m, node, what=f"{label}: {len(rows)} rows over {len(tb.atoms)} atoms")
+
+
+def rule_cmp_decision(ctx: Ctx) -> None:
+    """cmp.decision: the boolean structure of the comparators, decided on their truth tables (gqsa/boolform.py): the per-step comparison
+    of direct(), its size precheck, and node_match of the isomorphism method accept exactly when every compared field agrees."""
+    from ..boolform import Table, Undecidable
+    repo = ctx.repo
+    m = repo.module(CMP)
+    # ---- direct(): per-step comparison
+    fn = repo.anchor(CMP, "direct")
+    ctx.touch(m, fn)
+    w = next((x for x in ast.walk(fn) if isinstance(x, ast.While)), None)
+    if w is None:
+        raise AnalysisError("direct(): wire walk not found")
+    tb = Table()
+    try:
+        run = tb.outcomes([s_ for s_ in w.body if not isinstance(s_, (ast.For, ast.While))])
+        _decision_check(ctx, m, "direct() step", tb, run, ["type(@)", "@.q_registers_type", "@.q_registers", "params"], w,
+                        lambda r: r == ("return", False), "direct")
+    except Undecidable as e:
+        raise AnalysisError(f"direct(): step comparison not decidable ({e})")
+    # ---- direct(): size precheck
+    top = next((i for i in fn.body if isinstance(i, ast.If) and any(x is w for x in ast.walk(i))), None)
+    if top is not None:
+        tb2 = Table()
+        env = {}
+        for a in fn.body:
+            if isinstance(a, ast.Assign) and len(a.targets) == 1 and isinstance(a.targets[0], ast.Name) and isinstance(a.value, (ast.Compare, ast.BoolOp)):
+                env[a.targets[0].id] = tb2.formula(a.value, env)
+        f = tb2.formula(top.test, env)
+        pair = [k for k, a in tb2.atoms.items() if a.pair is not None]
+        else_false = bool(top.orelse) and any(isinstance(r, ast.Return) and isinstance(r.value, ast.Constant) and r.value.value is False for r in ast.walk(top.orelse[0]))
+        okp = bool(pair) and all(f(a) == all(a[k] for k in pair) for a in tb2.rows()) and else_false
+        if okp:
+            ctx.ok("cmp.decision", m, top.test, what="direct(): walk entered only when register counts and node counts agree, else False")
+        else:
+            ctx.fail("cmp.decision", m, top.test, f"direct(): the precheck `{short(top.test)}` does not require both circuits to have the same registers and the same "
+                     f"number of nodes (or the other branch does not answer False)", func="direct", construct="direct: precheck decision")
+    # ---- node_match
+    nm = repo.anchor(CMP, "circuit_is_isomorphic.node_match")
+    ctx.touch(m, nm)
+    tb3 = Table()
+    try:
+        run3 = tb3.outcomes(nm.body)
+        _decision_check(ctx, m, "node_match", tb3, run3, ["type(@)", "@.q_registers_type", "params"], nm,
+                        lambda r: r != ("return", True), "circuit_is_isomorphic.node_match")
+    except Undecidable as e:
+        raise AnalysisError(f"node_match: not decidable ({e})")
+
+
+def rule_cmp_walk_edge(ctx: Ctx) -> None:
+    """cmp.walk-edge: direct() advances along a register's wire in both circuits by taking the head (element 1) of the out-edge whose
+    key is that register (`edge[2] == reg`); and edge_match accepts exactly when the two role lists are equal."""
+    from ..boolform import Table
+    repo = ctx.repo
+    m = repo.module(CMP)
+    fn = repo.anchor(CMP, "direct")
+    w = next((x for x in ast.walk(fn) if isinstance(x, ast.While)), None)
+    if w is None:
+        raise AnalysisError("direct(): wire walk not found")
+    comps = [a for a in w.body if isinstance(a, ast.Assign) and isinstance(a.value, ast.ListComp)]
+    steps = [a for a in w.body if isinstance(a, ast.Assign) and isinstance(a.value, ast.Subscript) and isinstance(a.value.value, ast.Subscript)]
+    if len(comps) != 2 or len(steps) < 2:
+        raise AnalysisError("direct(): the two out-edge selections / node advances were not found")
+    for c in comps:
+        g = c.value.generators[0]
+        keyed = any(isinstance(t, ast.Compare) and len(t.ops) == 1 and isinstance(t.ops[0], ast.Eq) and
+                    {norm(t.left), norm(t.comparators[0])} == {f"{norm(g.target)}[2]", "reg"} for t in g.ifs)
+        src_ok = any(isinstance(x, ast.Call) and call_attr(x) == "out_edges" for x in ast.walk(g.iter))
+        if keyed and src_ok and len(g.ifs) == 1:
+            ctx.ok("cmp.walk-edge", m, c, what="out-edge selected by key == reg")
+        else:
+            ctx.fail("cmp.walk-edge", m, c, f"direct() selects the next edge with `{short(c.value, 90)}`: it must be the out-edge whose key is the walked register",
+                     func="direct", construct="direct: edge selection")
+    for a in steps[:2]:
+        v = a.value
+        if norm(v.slice) == "1" and norm(v.value.slice) == "0":
+            ctx.ok("cmp.walk-edge", m, a, what="advance to the head of the first matching edge")
+        else:
+            ctx.fail("cmp.walk-edge", m, a, f"direct() advances with `{short(a)}`: the next node is element 1 (the head) of the first matching out-edge", func="direct",
+                     construct="direct: node advance")
+    em = repo.anchor(CMP, "circuit_is_isomorphic.edge_match")
+    tb = Table()
+    run = tb.outcomes(em.body)
+    _decision_check(ctx, m, "edge_match", tb, run, ["@"], em, lambda r: r != ("return", True), "circuit_is_isomorphic.edge_match")
+
+
 NORMALISERS = ("unwrap_nodes", "remove_identity")
 
 
@@ -415,12 +549,19 @@ def run(ctx: Ctx) -> None:
     rule_cmp_roles(ctx)
     rule_cmp_multiedge(ctx)
     rule_cmp_every_step(ctx)
+    rule_cmp_decision(ctx)
+    rule_cmp_walk_edge(ctx)
     rule_cmp_normalise(ctx)
     ctx.floor("cmp.fields", 10)
     ctx.floor("cmp.normalise", 5)
 
 
 KNOCKOUTS = [
+    Knockout("direct-params-compared-with-or", CMP, sub_once("                    and tuple(op1.params) == tuple(op2.params)\n", "                    or tuple(op1.params) == tuple(op2.params)\n"), "cmp.decision", "direct() step"),
+    Knockout("node-match-type-polarity", CMP, sub_once("        if type(op1) != type(op2) or op1.q_registers_type != op2.q_registers_type:", "        if type(op1) == type(op2) or op1.q_registers_type != op2.q_registers_type:"), "cmp.decision", "node_match"),
+    Knockout("node-match-control-and-target", CMP, sub_once("                op1.control_type != op2.control_type\n                or op1.target_type != op2.target_type", "                op1.control_type != op2.control_type\n                and op1.target_type != op2.target_type"), "cmp.decision", "node_match"),
+    Knockout("edge-match-inverted", CMP, sub_once("        return roles1 == roles2", "        return roles1 != roles2"), "cmp.decision", "edge_match"),
+    Knockout("direct-advances-to-edge-tail", CMP, sub_once("                node2 = out_edge_compare[0][1]", "                node2 = out_edge_compare[0][0]"), "cmp.walk-edge", "node advance"),
     Knockout("direct-skips-pair-gates-on-target-wire", CMP, sub_once("                control_match = (\n                    op1.q_registers_type == op2.q_registers_type", "                if type(op1) is type(op2) and len(op1.q_registers) == 2 and reg == f\"{op1.q_registers_type[1]}{op1.q_registers[1]}\":\n                    continue\n                control_match = (\n                    op1.q_registers_type == op2.q_registers_type"), "cmp.every-step", "skips the comparison"),
     Knockout("edge-match-flattens-role-pairs", CMP, sub_once('        roles1 = sorted(str(attr["control_target"]) for attr in e1.values())', '        roles1 = sorted(str(role) for attr in e1.values() for role in attr["control_target"])'), "cmp.multiedge", "flattened"),
     Knockout("ged-truthiness", CMP, sub_once("    return sim == 0\n", "    return not sim\n"), "ged.zero", "truthiness"),
